@@ -314,10 +314,18 @@ Definition exists_hash (i : integrity) : prog (res bool) :=
 Definition remove_hash (i : integrity) : prog (res unit) :=
   with_cpath i (fun cp => step_ok (Unlink cp)).
 
+(* content that is already gone is not an error of a full removal *)
+Definition unlink_if_present (l : loc) : prog (res unit) :=
+  Do (Unlink l) (fun r => match r with
+                          | RErr ENOENT => Ret (Ok tt)
+                          | RErr _ => Ret (Err EIoErr)
+                          | _ => Ret (Ok tt)
+                          end).
+
 Definition remove_fully (key : bytes) : prog (res unit) :=
   e <- find key ;;
   (match e with
-   | Some m => with_cpath (m_sri m) (fun cp => step_ok (Unlink cp))
+   | Some m => with_cpath (m_sri m) (fun cp => unlink_if_present cp)
    | None => Ret (Ok tt)
    end) ;;;
   step_ok (Unlink (InCache (bucket_path key))).
